@@ -96,6 +96,7 @@ package dstutil
 //@ ensures cursor_restored: a.cursor.parent == old(a.cursor.parent) && a.cursor.name == old(a.cursor.name) && a.cursor.iter == old(a.cursor.iter) && a.cursor.node == old(a.cursor.node)
 //@ ensures iterator_restored: a.iter.index == old(a.iter.index) && a.iter.step == old(a.iter.step)
 //@ loop 1 invariant progress: a.iter.index >= 0
+//@ loop 1 exit none_left: a.iter.index >= rlen(parent, name)
 //@ loop 1 invariant cursor_kept: a.cursor.parent == old(a.cursor.parent) && a.cursor.name == old(a.cursor.name) && a.cursor.iter == old(a.cursor.iter) && a.cursor.node == old(a.cursor.node)
 
 // The user's callbacks: anything may change (they are assumed to edit the traversed list only through the cursor).
